@@ -6,29 +6,7 @@ TRUSTED = ['Lean 4 kernel', 'translator extract/translate.py (entry-point layer 
            'oracle calls are modelled as pure functions of their arguments (each translated entry point calls an allocator oracle at most once per path)',
            'harness/entry.c (what the generated wrappers are compared with; the implementation-side oracle)']
 
-def entry_harness(chk, d, want=('E', 'R')):
-    ok, exe, log = V.build_driver()
-    if not ok:
-        chk.broken_tie('lean driver does not build (generated signatures changed?)', log[-1500:]); return None
-    h = os.path.join(d, 'entry')
-    ok, log = V.cc_harness(os.path.join(V.HARNESS, 'entry.c'), h, flags=list(V.RELEASE) + ['-DVERIF_STATIC_C="%s/src/static.c"' % V.REPO])
-    if not ok:
-        chk.broken_tie('entry harness does not compile against the current tree', log[-1500:]); return None
-    rc, out, err = V.run([h, str(chk.seed), '1' if chk.tier == 'thorough' else '0'], timeout=(1800 if chk.tier == "thorough" else 400))
-    if rc != 0 or 'DONE' not in out:
-        last = [l for l in out.splitlines() if l][-1:] or ['']
-        chk.violation('%s/entry-crash' % chk.pid, 'entry-point harness crashed (exit %d) after: %s %s' % (rc, last[0], err[-200:].replace('\n', ' ')),
-                      {'cmd': 'harness/entry %d' % chk.seed, 'last_line': last[0]})
-        return None
-    rc2, out2, err2 = V.run([exe, 'entry'], input=out, timeout=900)
-    summary = [l for l in out2.splitlines() if l.startswith('entryval cases')]
-    diffs = [l for l in out2.splitlines() if l.startswith('DIFF') or l.startswith('UNPARSED')]
-    if summary:
-        n = int(summary[0].split()[2]); chk.count(n); chk.extra['wrapper_validation_cases'] = n
-    if rc2 != 0 or diffs or not summary:
-        chk.broken_tie('entry-point validation: generated wrappers and real entry points decide differently', '\n'.join(diffs[:10]) or (out2[-400:] + err2[-400:]))
-    chk.log('entry validation: %s' % (summary[0] if summary else 'no summary'))
-    return out
+from checks.C05 import entry_harness      # one implementation (bounded run time, hang reported as such)
 
 def run(chk):
     chk.trusted = TRUSTED
